@@ -178,7 +178,29 @@ def normalize_call_hook(P, n):
     return f'normalize({P.addr(a[0])}, {P.addr(a[1])}, {m})'
 
 
-HOOKS = [hooks.param_hook(), strict_test_hook, advance_hook, view_assign_hook, normalize_call_hook]
+def update_along_hook(P, n):
+    """program.update(X + sx * DX, U + su * DU, V + sv * DV, miu, state) -> state = nv_program_updated_along(...): the same values as
+    the generic algebra, plus the ghost provenance of the trial point.  Any other shape falls through to the generic mapping."""
+    if n.get('kind') != 'CXXMemberCallExpr' or n['inner'][0].get('kind') != 'MemberExpr' or n['inner'][0].get('name') != 'update':
+        return None
+    me = n['inner'][0]
+    if 'solver_t::program_t' not in qual(me['inner'][0]['type']) or len(n['inner']) != 6:
+        return None
+    parts = []
+    for a in n['inner'][1:4]:
+        add = _opcall(a, 'operator+')
+        sc = _scaled(add[1]) if add is not None and len(add) == 2 else None
+        if sc is None:
+            return None
+        parts += [P.expr(add[0]), P.expr(sc[0]), P.expr(sc[1])]
+    obj = me['inner'][0]
+    prog = P.expr(obj) if me.get('isArrow') else P.addr(obj)
+    st = P.expr(n['inner'][5])
+    P.note('program.update(X + s * DX, U + s * DU, V + s * DV, ..) -> nv_program_updated_along')
+    return f'({st} = nv_program_updated_along({prog}, {st}, {", ".join(parts)}))'
+
+
+HOOKS = [hooks.param_hook(), strict_test_hook, advance_hook, view_assign_hook, normalize_call_hook, update_along_hook]
 FEAS_ABS = [(r'^feasible\|nano::program::solver_t::program_t', 'nv_program_feasible_abs')]
 COMMON = dict(types=TYPES, calls=CALLS, members=MEMBERS, hooks=HOOKS)
 TU = 'src/program/solver.cpp'
@@ -292,18 +314,20 @@ def build(tier):
             'multiplied back by exactly m_mufx (uninterpreted float operations: a data-flow identity); only m_fx, m_eta, m_rdual, m_rprim, '
             'm_rcent are written',
             'solve_without_inequality: the residual fields / fx of the returned state are those of the returned (x, u, v)',
-            'solve_with_inequality_res: converged => the residual fields (what done() tested) and fx of the returned state are those of the '
-            'returned (x, u, v).  REFUTED on the library as of e2bae93: when the stage-2 line search is exhausted and the last trial residual is '
-            'not above r0, the state keeps the trial point\'s residuals / fx while (x, u, v) are not moved, and done() certifies those '
-            '(native replay: scenario `stale`; observed differences are at rounding level)',
+            'solve_with_inequality_res: converged => the residual fields done() certified and the reported fx were computed by '
+            'program_t::update (a) at the returned (x, u, v), or (b) only when the line search of the FINAL iteration was exhausted '
+            '(max_lsearch_iters consecutive trials) at the last trial point (x + s dx, u + s du, v + s dv), one common s, of that same line '
+            'search started from the returned (x, u, v); a point of an earlier iteration, an unrelated point, or fields not recomputed after '
+            '(x, u, v) moved are refuted',
             '::make_smax over the reals (SMT): for u > 0 componentwise the result is in (0, 1] and u_g + result * du_g >= 0 at every index g; '
             'coefficient reads in bounds; loop variant',
         ],
         'not_decided': [
             'all numeric tolerances of the property (1e-6 (1+|b|), objective gap vs f*), correctness of infeasible / unbounded detection, '
             'invariance under restatement: they depend on LDLT numerics',
-            'that the residual fields were computed at the returned m_x: deliberately not demanded (on the max_lsearch_iters exit of stage 2 they '
-            'may belong to the last trial point; the property\'s 100x allowance covers that)',
+            'how close the last trial point of an exhausted final line search is to the returned point (s <= s_tested * beta^max_lsearch_iters): '
+            'numeric, not decided (the property tolerates 1e-6; native scenario `stale`: bitwise staleness in ~8% of converged runs, worst '
+            'relative fx difference 7e-12 over 5.6M random programs)',
             'make_smax in IEEE arithmetic: result > 0 (the quotient -u_i / du_i can underflow to +0; proved over the reals only)',
             'the size precondition of make_smax at its call site in solve_with_inequality (u and du both have m coefficients) needs Eigen size '
             'reasoning; there make_smax is an arbitrary side-effect-free double',
